@@ -112,7 +112,57 @@ def case_cfg(case: Dict) -> Tuple[Any, Optional[Dict]]:
     cfg = load_shipped(case["path"])
     if case.get("max_len"):
         cfg["game"]["max_episode_length"] = case["max_len"]
+    if case.get("tweak"):
+        TWEAKS[case["tweak"]](cfg, case)
     return cfg, None
+
+
+def _tweak_early_attack(cfg: Dict, case: Dict) -> None:
+    """Scripted attackers start at once and act often, and every success probability of a bot / kill-chain stage is
+    strictly between 0 and 1 (case['p']), so that trial OUTCOMES shape the first steps of an episode."""
+    p = case.get("p", 0.5)
+    for a in cfg.get("agents", []):
+        st_ = a.get("agent_settings") or {}
+        if a.get("type") in ("red-database-corrupting-agent", "periodic-agent") and a.get("team") == "RED":
+            st_.update(start_step=1, frequency=2, variance=0)
+            a["agent_settings"] = st_
+    for n in cfg["simulation"]["network"].get("nodes", []):
+        for ap in n.get("applications", []) or []:
+            o = ap.get("options")
+            if isinstance(o, dict):
+                for k in list(o):
+                    if k.endswith("p_of_success"):
+                        o[k] = p
+
+
+def _tweak_shared_first(cfg: Dict, case: Dict) -> None:
+    """The learning agent is declared FIRST and shares the rewards of several later-declared scripted agents, which are
+    periodic agents drawing from the global RNG whenever they act (order-sensitive): any place where the order of agents
+    inside a step follows the reward-sharing graph (sets of names) instead of the declaration order becomes visible."""
+    _tweak_early_attack(cfg, case)
+    agents = cfg["agents"]
+    blue = next(a for a in agents if a.get("type") == "proxy-agent")
+    greens = [a for a in agents if a.get("type") == "probabilistic-agent"]
+    names = []
+    for k, g in enumerate(greens[:3]):
+        acts = [v for v in (g.get("action_space") or {}).get("action_map", {}).values()
+                if v.get("action") == "node-application-execute"]
+        if not acts:
+            continue
+        o = acts[0]["options"]
+        g["type"] = "periodic-agent"
+        g["agent_settings"] = {"start_step": 1, "frequency": 2, "variance": 1, "possible_start_nodes": [o["node_name"]],
+                               "target_application": o["application_name"]}
+        g["action_space"] = {"action_map": {0: {"action": "do-nothing", "options": {}}}}
+        names.append(g["ref"])
+    comps = blue.setdefault("reward_function", {}).setdefault("reward_components", [])
+    for n in names:
+        comps.append({"type": "shared-reward", "weight": 1.0, "options": {"agent_name": n}})
+    agents.remove(blue)
+    agents.insert(0, blue)
+
+
+TWEAKS = {"early_attack": _tweak_early_attack, "shared_first": _tweak_shared_first}
 
 
 def resolve_action(op: List, n_actions: int, meta: Optional[Dict]) -> int:
